@@ -12,6 +12,38 @@ Record grant := { g_grantee : Z; g_granter : Z; g_kind : Z; g_limit : Z; g_exp :
 Definition grant_is (grantee granter kind : Z) (g : grant) : bool :=
   (g_grantee g =? grantee) && (g_granter g =? granter) && (g_kind g =? kind).
 
+(* ---- ovm (x/ovm) ---------------------------------------------------------------------------- *)
+Definition PS_ACTIVE := 1. Definition PS_FINISHED := 2.
+Definition PR_APPROVED := 1. Definition PR_REJECTED := 2. Definition PR_EXPIRED := 3.
+Definition VOTE_NO := 1. Definition VOTE_YES := 2.
+Record proposal := { pp_id : Z; pp_creator : Z; pp_keys : list Z; pp_leader : Z; pp_start : Z;
+                     pp_votes : list (Z * Z) (* (key, vote) *); pp_status : Z; pp_result : Z; pp_finish : Z }.
+
+(* ---- subaccount (x/subaccount) ---------------------------------------------------------------- *)
+(* the subaccount with id n has address 1000 + n *)
+Definition SUBBASE : Z := 1000.
+Record subacc := { sa_id : Z; sa_owner : Z; sa_dep : Z; sa_spent : Z; sa_wd : Z; sa_lost : Z;
+                sa_locks : list (Z * Z) (* (unlock ts, amount), keyed by ts *) }.
+Definition sub_addr (x : subacc) : Z := SUBBASE + sa_id x.
+Definition sub_available (x : subacc) : Z := sa_dep x - sa_wd x - sa_spent x - sa_lost x.   (* AccountSummary.Available *)
+Definition sub_with (x : subacc) (dep spent wd lost : Z) (locks : list (Z * Z)) : subacc :=
+  {| sa_id := sa_id x; sa_owner := sa_owner x; sa_dep := dep; sa_spent := spent; sa_wd := wd; sa_lost := lost; sa_locks := locks |}.
+Definition sub_by_owner (l : list subacc) (o : Z) : option subacc := findb (fun x => sa_owner x =? o) l.
+Definition sub_by_addr (l : list subacc) (a : Z) : option subacc := findb (fun x => sub_addr x =? a) l.
+Definition set_sub (l : list subacc) (x : subacc) : list subacc := upd (fun y => sa_id y =? sa_id x) x l.
+(* accsummary.go Spend / Unspend / AddLoss / Withdraw *)
+Definition sub_spend (x : subacc) (a : Z) : option subacc :=
+  if a <? 0 then None else if sub_available x <? a then None
+  else Some (sub_with x (sa_dep x) (sa_spent x + a) (sa_wd x) (sa_lost x) (sa_locks x)).
+Definition sub_unspend (x : subacc) (a : Z) : option subacc :=
+  if a <? 0 then None else if sa_spent x <? a then None
+  else Some (sub_with x (sa_dep x) (sa_spent x - a) (sa_wd x) (sa_lost x) (sa_locks x)).
+Definition sub_addloss (x : subacc) (a : Z) : option subacc :=
+  if a <? 0 then None else Some (sub_with x (sa_dep x) (sa_spent x) (sa_wd x) (sa_lost x + a) (sa_locks x)).
+Definition sub_withdraw (x : subacc) (a : Z) : option subacc :=
+  if a <? 0 then None else if sub_available x <? a then None
+  else Some (sub_with x (sa_dep x) (sa_spent x) (sa_wd x + a) (sa_lost x) (sa_locks x)).
+
 (* ---- chain state -------------------------------------------------------------------------- *)
 Record chain := {
   c_bank : bank; c_now : Z; c_height : Z; c_prm : params;
@@ -24,6 +56,9 @@ Record chain := {
   c_settledix : list (Z * Z);         (* settled-bet index: (height, bet id) *)
   c_grants : list grant;
   c_mparams : mparams; c_minter : minter; c_supply : Z;
+  c_props : list proposal; c_propcnt : Z;
+  c_subs : list subacc; c_subnext : Z (* next subaccount id (Peek) *);
+  c_sub_wager : bool; c_sub_deposit : bool;   (* subaccount params *)
   c_halted : bool }.
 
 Definition chain_upd (s : chain) (bk : bank) (ms : list (Z * mstate)) (mq bq : list Z) (betcnt : Z)
@@ -31,7 +66,23 @@ Definition chain_upd (s : chain) (bk : bank) (ms : list (Z * mstate)) (mq bq : l
   {| c_bank := bk; c_now := c_now s; c_height := c_height s; c_prm := c_prm s; c_vault := c_vault s;
      c_ms := ms; c_mqueue := mq; c_bqueue := bq; c_betcnt := betcnt; c_uid2id := u2i;
      c_settledix := sidx; c_grants := grants; c_mparams := c_mparams s; c_minter := c_minter s;
-     c_supply := c_supply s; c_halted := c_halted s |}.
+     c_supply := c_supply s; c_props := c_props s; c_propcnt := c_propcnt s; c_subs := c_subs s;
+     c_subnext := c_subnext s; c_sub_wager := c_sub_wager s; c_sub_deposit := c_sub_deposit s;
+     c_halted := c_halted s |}.
+
+Definition chain_set_subs (s : chain) (subs : list subacc) (nxt : Z) : chain :=
+  {| c_bank := c_bank s; c_now := c_now s; c_height := c_height s; c_prm := c_prm s; c_vault := c_vault s;
+     c_ms := c_ms s; c_mqueue := c_mqueue s; c_bqueue := c_bqueue s; c_betcnt := c_betcnt s; c_uid2id := c_uid2id s;
+     c_settledix := c_settledix s; c_grants := c_grants s; c_mparams := c_mparams s; c_minter := c_minter s;
+     c_supply := c_supply s; c_props := c_props s; c_propcnt := c_propcnt s; c_subs := subs;
+     c_subnext := nxt; c_sub_wager := c_sub_wager s; c_sub_deposit := c_sub_deposit s; c_halted := c_halted s |}.
+
+Definition chain_set_ovm (s : chain) (vault : list Z) (props : list proposal) (cnt : Z) : chain :=
+  {| c_bank := c_bank s; c_now := c_now s; c_height := c_height s; c_prm := c_prm s; c_vault := vault;
+     c_ms := c_ms s; c_mqueue := c_mqueue s; c_bqueue := c_bqueue s; c_betcnt := c_betcnt s; c_uid2id := c_uid2id s;
+     c_settledix := c_settledix s; c_grants := c_grants s; c_mparams := c_mparams s; c_minter := c_minter s;
+     c_supply := c_supply s; c_props := props; c_propcnt := cnt; c_subs := c_subs s;
+     c_subnext := c_subnext s; c_sub_wager := c_sub_wager s; c_sub_deposit := c_sub_deposit s; c_halted := c_halted s |}.
 
 Definition get_ms (s : chain) (m : Z) : option mstate :=
   match findb (fun x => fst x =? m) (c_ms s) with Some x => Some (snd x) | None => None end.
@@ -50,13 +101,38 @@ Definition pay (b : bank) (from to amt : Z) : option bank :=
   else if bget b from <? amt then None
   else Some (badd (badd b from (- amt)) to amt).
 
-(* hooks are interpreted by the subaccount module; with no subaccount registered for the address
-   they return immediately (x/subaccount/keeper/hooks.go: `if !exists { return }`). *)
-Fixpoint apply_effects (b : bank) (effs : list effect) : option bank :=
+(* x/subaccount/keeper/hooks.go: with no subaccount registered for the address the hooks return at once
+   (`if !exists { return }`); otherwise they Unspend / AddLoss and, on a house win, forward the profit
+   from the subaccount to its owner.  Any failure panics (None). *)
+Definition hook_sub (b : bank) (subs : list subacc) (a : Z) (f : subacc -> option subacc) (fwd : Z) : option (bank * list subacc) :=
+  match sub_by_addr subs a with
+  | None => Some (b, subs)
+  | Some x =>
+      match f x with
+      | None => None
+      | Some x' =>
+          if fwd =? 0 then Some (b, set_sub subs x')
+          else match pay b a (sa_owner x) fwd with
+               | None => None
+               | Some b' => Some (b', set_sub subs x')
+               end
+      end
+  end.
+
+Fixpoint apply_effects (b : bank) (subs : list subacc) (effs : list effect) : option (bank * list subacc) :=
   match effs with
-  | [] => Some b
-  | Pay f t a :: r => match pay b f t a with Some b' => apply_effects b' r | None => None end
-  | _ :: r => apply_effects b r
+  | [] => Some (b, subs)
+  | e :: r =>
+      let res :=
+        match e with
+        | Pay f t a => match pay b f t a with Some b' => Some (b', subs) | None => None end
+        | HookWin a liq profit => hook_sub b subs a (fun x => sub_unspend x liq) profit
+        | HookLoss a liq lost =>
+            hook_sub b subs a (fun x => match sub_unspend x liq with Some y => sub_addloss y lost | None => None end) 0
+        | HookRefund a amt => hook_sub b subs a (fun x => sub_unspend x amt) 0
+        | HookFeeRefund a fee => hook_sub b subs a (fun x => sub_unspend x fee) 0
+        end in
+      match res with Some (b', subs') => apply_effects b' subs' r | None => None end
   end.
 
 (* ---- tickets ----------------------------------------------------------------------------------- *)
@@ -78,7 +154,17 @@ Inductive op :=
          (allodds : list (Z * Z)) (ky : kyc) (oddstype : Z)
 | OGrant (granter grantee kind limit exp : Z)
 | ORevoke (granter grantee kind : Z)
-| OSend (from to amt : Z).
+| OSend (from to amt : Z)
+| OPropose (signer : Z) (tk : ticket) (keys : list Z) (leader_idx : Z)
+| OVote (signer : Z) (tk : ticket) (voter_idx prop_id vote : Z)
+| OSubCreate (creator owner : Z) (locks : list (Z * Z))
+| OSubTopUp (creator owner : Z) (locks : list (Z * Z))
+| OSubWithdraw (owner : Z)
+| OSubWager (signer : Z) (tk : ticket) (inner_creator : Z) (tk2 : ticket)
+            (betuid amount selmkt selodds oddsval mult : Z) (allodds : list (Z * Z)) (ky : kyc) (oddstype : Z)
+            (main_ded sub_ded : Z)
+| OSubHouseDeposit (signer : Z) (tk : ticket) (mkt amount : Z) (ky : kyc) (dep : Z)
+| OSubHouseWithdraw (signer : Z) (tk : ticket) (mkt pidx mode amount : Z) (ky : kyc) (dep : Z).
 
 Inductive out := Ok | Err | Panic.
 
@@ -169,44 +255,58 @@ Definition use_grant (gs : list grant) (grantee granter kind amount : Z) : optio
   end.
 
 (* ---- house -------------------------------------------------------------------------------------------------- *)
-Definition house_deposit (s : chain) (signer : Z) (tk : ticket) (mkt amount : Z) (ky : kyc) (dep : Z) : option chain :=
+Definition with_subs (s : chain) (subs : list subacc) : chain := chain_set_subs s subs (c_subnext s).
+
+(* x/house/keeper/deposit.go Deposit (creator pays nothing; the depositor's account is debited) *)
+Definition house_deposit_core (s : chain) (creator depositor mkt amount : Z) (grants : list grant) : option chain :=
+  let P := c_prm s in
+  let fee := dec_round_int (dec_mulint (pr_h_fee P) amount) in     (* CalcHouseParticipationFeeAmount *)
+  match get_ms s mkt with
+  | None => None
+  | Some x =>
+      if negb (k_status (ms_mkt x) =? MK_ACTIVE) then None else
+      match init_participation (ms_book x) (pr_ob_maxpart P) depositor amount fee with
+      | None => None
+      | Some (bk, idx, effs) =>
+          match apply_effects (c_bank s) (c_subs s) effs with
+          | None => None
+          | Some (bank', subs') =>
+              let d := {| d_creator := creator; d_depositor := depositor; d_mkt := mkt; d_pidx := idx;
+                          d_amount := amount; d_wcount := 0; d_wtotal := 0 |} in
+              let x' := mstate_upd x (ms_mkt x) bk (ms_bets x) (ms_pending x) (ms_deps x ++ [d]) (ms_wds x) in
+              Some (chain_upd (with_subs s subs') bank' (set_ms_list (c_ms s) mkt x') (c_mqueue s) (c_bqueue s) (c_betcnt s)
+                              (c_uid2id s) (c_settledix s) grants)
+          end
+      end
+  end.
+
+(* msg_server_deposit.go ParseDepositTicketAndValidate: returns the depositor and the grants after consumption *)
+Definition deposit_validate (s : chain) (signer : Z) (tk : ticket) (mkt amount : Z) (ky : kyc) (dep : Z) (authz_allowed : bool)
+  : option (Z * list grant) :=
   let P := c_prm s in
   if (mkt <? 0) || (amount <=? 0) then None                         (* ValidateBasic *)
   else if amount <? pr_h_mindep P then None                         (* ValidateSanity *)
   else if negb (ticket_ok s tk) then None
   else
     let onbehalf := (0 <=? dep) && negb (dep =? signer) in
+    if onbehalf && negb authz_allowed then None else
     let depositor := if onbehalf then dep else signer in
     match (if onbehalf then use_grant (c_grants s) signer dep GK_DEPOSIT amount else Some (c_grants s)) with
     | None => None
-    | Some grants =>
-        if negb (kyc_ok ky depositor) then None else
-        let fee := dec_round_int (dec_mulint (pr_h_fee P) amount) in     (* CalcHouseParticipationFeeAmount *)
-        match get_ms s mkt with
-        | None => None
-        | Some x =>
-            if negb (k_status (ms_mkt x) =? MK_ACTIVE) then None else
-            match init_participation (ms_book x) (pr_ob_maxpart P) depositor amount fee with
-            | None => None
-            | Some (bk, idx, effs) =>
-                match apply_effects (c_bank s) effs with
-                | None => None
-                | Some bank' =>
-                    let d := {| d_creator := signer; d_depositor := depositor; d_mkt := mkt; d_pidx := idx;
-                                d_amount := amount; d_wcount := 0; d_wtotal := 0 |} in
-                    let x' := mstate_upd x (ms_mkt x) bk (ms_bets x) (ms_pending x) (ms_deps x ++ [d]) (ms_wds x) in
-                    Some (chain_upd s bank' (set_ms_list (c_ms s) mkt x') (c_mqueue s) (c_bqueue s) (c_betcnt s)
-                                    (c_uid2id s) (c_settledix s) grants)
-                end
-            end
-        end
+    | Some grants => if negb (kyc_ok ky depositor) then None else Some (depositor, grants)
     end.
+
+Definition house_deposit (s : chain) (signer : Z) (tk : ticket) (mkt amount : Z) (ky : kyc) (dep : Z) : option chain :=
+  match deposit_validate s signer tk mkt amount ky dep true with
+  | None => None
+  | Some (depositor, grants) => house_deposit_core s signer depositor mkt amount grants
+  end.
 
 Definition dep_is (depositor pidx : Z) (d : deposit) : bool := (d_depositor d =? depositor) && (d_pidx d =? pidx).
 
-Definition house_withdraw (s : chain) (signer : Z) (tk : ticket) (mkt pidx mode amount : Z) (ky : kyc) (dep : Z)
-  : option chain :=
-  let P := c_prm s in
+(* msg_server_withdraw.go ParseWithdrawTicketAndValidate: (depositor, isOnBehalf) *)
+Definition withdraw_validate (s : chain) (signer : Z) (tk : ticket) (mkt pidx mode amount : Z) (ky : kyc) (dep : Z)
+  : option (Z * bool) :=
   if negb ((mode =? WM_FULL) || (mode =? WM_PARTIAL)) then None      (* ValidateBasic *)
   else if mkt <? 0 then None
   else if pidx <? 1 then None
@@ -215,57 +315,77 @@ Definition house_withdraw (s : chain) (signer : Z) (tk : ticket) (mkt pidx mode 
   else
     let onbehalf := 0 <=? dep in
     let depositor := if onbehalf then dep else signer in
-    if negb (kyc_ok ky depositor) then None else
-    match get_ms s mkt with
-    | None => None
-    | Some x =>
-        match findb (dep_is depositor pidx) (ms_deps x) with
-        | None => None
-        | Some d =>
-            if pr_h_maxw P <=? d_wcount d then None else
-            match calc_withdrawal (ms_book x) depositor pidx mode (d_wtotal d) amount with
-            | None => None
-            | Some amt =>
-                match (if onbehalf then use_grant (c_grants s) signer depositor GK_WITHDRAW amt else Some (c_grants s)) with
-                | None => None
-                | Some grants =>
-                    match withdraw_participation (ms_book x) pidx amt with
-                    | None => None
-                    | Some (bk, effs) =>
-                        match apply_effects (c_bank s) effs with
-                        | None => None
-                        | Some bank' =>
-                            let w := {| w_id := d_wcount d + 1; w_creator := signer; w_depositor := depositor;
-                                        w_mkt := mkt; w_pidx := pidx; w_mode := mode; w_amount := amt |} in
-                            let d' := {| d_creator := d_creator d; d_depositor := d_depositor d; d_mkt := d_mkt d;
-                                         d_pidx := d_pidx d; d_amount := d_amount d; d_wcount := d_wcount d + 1;
-                                         d_wtotal := d_wtotal d + amt |} in
-                            let x' := mstate_upd x (ms_mkt x) bk (ms_bets x) (ms_pending x)
-                                                 (upd (dep_is depositor pidx) d' (ms_deps x)) (ms_wds x ++ [w]) in
-                            Some (chain_upd s bank' (set_ms_list (c_ms s) mkt x') (c_mqueue s) (c_bqueue s)
-                                            (c_betcnt s) (c_uid2id s) (c_settledix s) grants)
-                        end
-                    end
-                end
-            end
-        end
-    end.
+    if negb (kyc_ok ky depositor) then None else Some (depositor, onbehalf).
+
+(* msg_server_withdraw.go CalcAndWithdraw + keeper/withdrawal.go Withdraw; returns the executed amount too *)
+Definition withdraw_core (s : chain) (signer depositor mkt pidx mode amount : Z) (onbehalf : bool) : option (chain * Z) :=
+  let P := c_prm s in
+  match get_ms s mkt with
+  | None => None
+  | Some x =>
+      match findb (dep_is depositor pidx) (ms_deps x) with
+      | None => None
+      | Some d =>
+          if pr_h_maxw P <=? d_wcount d then None else
+          match calc_withdrawal (ms_book x) depositor pidx mode (d_wtotal d) amount with
+          | None => None
+          | Some amt =>
+              match (if onbehalf then use_grant (c_grants s) signer depositor GK_WITHDRAW amt else Some (c_grants s)) with
+              | None => None
+              | Some grants =>
+                  match withdraw_participation (ms_book x) pidx amt with
+                  | None => None
+                  | Some (bk, effs) =>
+                      match apply_effects (c_bank s) (c_subs s) effs with
+                      | None => None
+                      | Some (bank', subs') =>
+                          let w := {| w_id := d_wcount d + 1; w_creator := signer; w_depositor := depositor;
+                                      w_mkt := mkt; w_pidx := pidx; w_mode := mode; w_amount := amt |} in
+                          let d' := {| d_creator := d_creator d; d_depositor := d_depositor d; d_mkt := d_mkt d;
+                                       d_pidx := d_pidx d; d_amount := d_amount d; d_wcount := d_wcount d + 1;
+                                       d_wtotal := d_wtotal d + amt |} in
+                          let x' := mstate_upd x (ms_mkt x) bk (ms_bets x) (ms_pending x)
+                                               (upd (dep_is depositor pidx) d' (ms_deps x)) (ms_wds x ++ [w]) in
+                          Some (chain_upd (with_subs s subs') bank' (set_ms_list (c_ms s) mkt x') (c_mqueue s) (c_bqueue s)
+                                          (c_betcnt s) (c_uid2id s) (c_settledix s) grants, amt)
+                      end
+                  end
+              end
+          end
+      end
+  end.
+
+Definition house_withdraw (s : chain) (signer : Z) (tk : ticket) (mkt pidx mode amount : Z) (ky : kyc) (dep : Z)
+  : option chain :=
+  match withdraw_validate s signer tk mkt pidx mode amount ky dep with
+  | None => None
+  | Some (depositor, onbehalf) =>
+      match withdraw_core s signer depositor mkt pidx mode amount onbehalf with
+      | Some (s', _) => Some s'
+      | None => None
+      end
+  end.
 
 (* ---- bet ----------------------------------------------------------------------------------------------------- *)
 Definition mult_ok (m : Z) : bool := (0 <? m) && (m <=? PREC).
 
-Definition bet_wager (s : chain) (signer : Z) (tk : ticket) (betuid amount selmkt selodds oddsval mult : Z)
-           (allodds : list (Z * Z)) (ky : kyc) (oddstype : Z) : option chain :=
+(* MsgWager.ValidateBasic + x/bet/keeper/bet.go PrepareBetObject (duplicate uid, ticket, payload.Validate) *)
+Definition wager_prepare (s : chain) (creator : Z) (tk : ticket) (betuid amount selmkt selodds mult : Z)
+           (allodds : list (Z * Z)) (ky : kyc) (oddstype : Z) : bool :=
+  negb ((betuid <? 0) || (amount <=? 0))
+  && negb (existsb (fun x => fst x =? betuid) (c_uid2id s))
+  && ticket_ok s tk
+  && negb ((oddstype <? 0) || (3 <? oddstype))
+  && negb ((selmkt <? 0) || (selodds <? 0))
+  && mult_ok mult
+  && forallb (fun x => (0 <=? fst x) && mult_ok (snd x)) allodds
+  && kyc_ok ky creator.
+
+(* x/bet/keeper/wager.go Wager *)
+Definition wager_core (s : chain) (signer betuid amount selmkt selodds oddsval mult : Z) (allodds : list (Z * Z))
+  : option chain :=
   let P := c_prm s in
-  if (betuid <? 0) || (amount <=? 0) then None                                     (* ValidateBasic *)
-  else if existsb (fun x => fst x =? betuid) (c_uid2id s) then None                 (* PrepareBetObject *)
-  else if negb (ticket_ok s tk) then None
-  else if (oddstype <? 0) || (3 <? oddstype) then None                              (* payload.Validate *)
-  else if (selmkt <? 0) || (selodds <? 0) then None
-  else if negb (mult_ok mult) then None
-  else if negb (forallb (fun x => (0 <=? fst x) && mult_ok (snd x)) allodds) then None
-  else if negb (kyc_ok ky signer) then None
-  else match get_ms s selmkt with                                                  (* Wager / getMarket *)
+  match get_ms s selmkt with
   | None => None
   | Some x =>
       let mk := ms_mkt x in
@@ -288,20 +408,26 @@ Definition bet_wager (s : chain) (signer : Z) (tk : ticket) (betuid amount selmk
             match process_wager (ms_book x) A amt profit signer fee with
             | None => None
             | Some (bk, parts, effs) =>
-                match apply_effects (c_bank s) effs with
+                match apply_effects (c_bank s) (c_subs s) effs with
                 | None => None
-                | Some bank' =>
+                | Some (bank', subs') =>
                     let b := {| b_id := betid; b_uid := betuid; b_creator := signer; b_mkt := selmkt; b_odds := selodds;
                                 b_oddsval := oddsval; b_amount := zsum (map f_stake parts); b_fee := fee; b_status := BS_PLACED;
                                 b_result := BR_PENDING; b_mult := mult; b_created := c_now s; b_sheight := 0;
                                 b_parts := parts |} in
                     let x' := mstate_upd x mk bk (ms_bets x ++ [b]) (ms_pending x ++ [betid]) (ms_deps x) (ms_wds x) in
-                    Some (chain_upd s bank' (set_ms_list (c_ms s) selmkt x') (c_mqueue s) (c_bqueue s) betid
+                    Some (chain_upd (with_subs s subs') bank' (set_ms_list (c_ms s) selmkt x') (c_mqueue s) (c_bqueue s) betid
                                     (c_uid2id s ++ [(betuid, betid)]) (c_settledix s) (c_grants s))
                 end
             end
         end
   end.
+
+Definition bet_wager (s : chain) (signer : Z) (tk : ticket) (betuid amount selmkt selodds oddsval mult : Z)
+           (allodds : list (Z * Z)) (ky : kyc) (oddstype : Z) : option chain :=
+  if wager_prepare s signer tk betuid amount selmkt selodds mult allodds ky oddstype
+  then wager_core s signer betuid amount selmkt selodds oddsval mult allodds
+  else None.
 
 Definition bet_with (b : bet) (status result sheight : Z) : bet :=
   {| b_id := b_id b; b_uid := b_uid b; b_creator := b_creator b; b_mkt := b_mkt b; b_odds := b_odds b;
@@ -341,17 +467,17 @@ Definition settle_bet (x : mstate) (height : Z) (betid : Z) : option (mstate * l
 
 (* batchMarketSettlement: the first `limit` pending bets of the market, one after the other.
    Returns the state, bank, settled-index additions and count. *)
-Fixpoint settle_bets (ids : list Z) (x : mstate) (bk : bank) (height : Z) (sidx : list (Z * Z)) (cnt : Z)
-  : option (mstate * bank * list (Z * Z) * Z) :=
+Fixpoint settle_bets (ids : list Z) (x : mstate) (bk : bank) (subs : list subacc) (height : Z) (sidx : list (Z * Z)) (cnt : Z)
+  : option (mstate * bank * list subacc * list (Z * Z) * Z) :=
   match ids with
-  | [] => Some (x, bk, sidx, cnt)
+  | [] => Some (x, bk, subs, sidx, cnt)
   | id :: rest =>
       match settle_bet x height id with
       | None => None
       | Some (x', effs) =>
-          match apply_effects bk effs with
+          match apply_effects bk subs effs with
           | None => None
-          | Some bk' => settle_bets rest x' bk' height (sidx ++ [(height, id)]) (cnt + 1)
+          | Some (bk', subs') => settle_bets rest x' bk' subs' height (sidx ++ [(height, id)]) (cnt + 1)
           end
       end
   end.
@@ -372,19 +498,19 @@ Fixpoint bet_endblock (fuel : nat) (s : chain) (tofetch : Z) : option chain :=
           match get_ms s m with
           | None => None                                  (* pending iterator empty, then SetOrderBookAsUnsettledResolved fails *)
           | Some x =>
-              match settle_bets (firstn (Z.to_nat tofetch) (ms_pending x)) x (c_bank s) (c_height s) (c_settledix s) 0 with
+              match settle_bets (firstn (Z.to_nat tofetch) (ms_pending x)) x (c_bank s) (c_subs s) (c_height s) (c_settledix s) 0 with
               | None => None
-              | Some (x1, bk1, sidx1, cnt) =>
+              | Some (x1, bk1, subs1, sidx1, cnt) =>
                   match ms_pending x1 with
                   | _ :: _ =>
-                      bet_endblock fuel' (chain_upd s bk1 (set_ms_list (c_ms s) m x1) (c_mqueue s) (c_bqueue s)
+                      bet_endblock fuel' (chain_upd (with_subs s subs1) bk1 (set_ms_list (c_ms s) m x1) (c_mqueue s) (c_bqueue s)
                                                     (c_betcnt s) (c_uid2id s) sidx1 (c_grants s)) (tofetch - cnt)
                   | [] =>
                       (* SetOrderBookAsUnsettledResolved *)
                       if negb (bk_status (ms_book x1) =? BK_ACTIVE) then None else
                       let x2 := mstate_upd x1 (ms_mkt x1) (set_status (ms_book x1) BK_RESOLVED) (ms_bets x1)
                                            (ms_pending x1) (ms_deps x1) (ms_wds x1) in
-                      bet_endblock fuel' (chain_upd s bk1 (set_ms_list (c_ms s) m x2) (remove_uid m (c_mqueue s))
+                      bet_endblock fuel' (chain_upd (with_subs s subs1) bk1 (set_ms_list (c_ms s) m x2) (remove_uid m (c_mqueue s))
                                                     (c_bqueue s ++ [m]) (c_betcnt s) (c_uid2id s) sidx1 (c_grants s))
                                    (tofetch - cnt)
                   end
@@ -409,14 +535,14 @@ Fixpoint ob_endblock (fuel : nat) (s : chain) (tofetch : Z) (index : nat) : opti
               match batch_parts (bk_parts (ms_book x)) (k_status (ms_mkt x)) (k_creator (ms_mkt x)) tofetch 0 with
               | None => None
               | Some (alls, cnt, ps, effs) =>
-                  match apply_effects (c_bank s) effs with
+                  match apply_effects (c_bank s) (c_subs s) effs with
                   | None => None
-                  | Some bk1 =>
+                  | Some (bk1, subs1) =>
                       let b0 := ms_book x in
                       let b1 := book_upd b0 (if alls then BK_SETTLED else bk_status b0) (bk_partcnt b0) (bk_queues b0) ps
                                          (bk_expo b0) (bk_expo_ix b0) (bk_hist b0) (bk_pairs b0) in
                       let x1 := mstate_upd x (ms_mkt x) b1 (ms_bets x) (ms_pending x) (ms_deps x) (ms_wds x) in
-                      let s1 := chain_upd s bk1 (set_ms_list (c_ms s) m x1) (c_mqueue s)
+                      let s1 := chain_upd (with_subs s subs1) bk1 (set_ms_list (c_ms s) m x1) (c_mqueue s)
                                           (if alls then remove_uid m (c_bqueue s) else c_bqueue s)
                                           (c_betcnt s) (c_uid2id s) (c_settledix s) (c_grants s) in
                       ob_endblock fuel' s1 (tofetch - cnt) (if alls then index else S index)
@@ -426,38 +552,118 @@ Fixpoint ob_endblock (fuel : nat) (s : chain) (tofetch : Z) (index : nat) : opti
       end
   end.
 
-Definition halt (s : chain) : chain :=
-  {| c_bank := c_bank s; c_now := c_now s; c_height := c_height s; c_prm := c_prm s; c_vault := c_vault s;
+Definition chain_core (s : chain) (bk : bank) (now height : Z) (grants : list grant) (m : minter) (supply : Z) (halted : bool) : chain :=
+  {| c_bank := bk; c_now := now; c_height := height; c_prm := c_prm s; c_vault := c_vault s;
      c_ms := c_ms s; c_mqueue := c_mqueue s; c_bqueue := c_bqueue s; c_betcnt := c_betcnt s;
-     c_uid2id := c_uid2id s; c_settledix := c_settledix s; c_grants := c_grants s;
-     c_mparams := c_mparams s; c_minter := c_minter s; c_supply := c_supply s; c_halted := true |}.
+     c_uid2id := c_uid2id s; c_settledix := c_settledix s; c_grants := grants;
+     c_mparams := c_mparams s; c_minter := m; c_supply := supply; c_props := c_props s; c_propcnt := c_propcnt s;
+     c_subs := c_subs s; c_subnext := c_subnext s; c_sub_wager := c_sub_wager s; c_sub_deposit := c_sub_deposit s;
+     c_halted := halted |}.
+
+Definition halt (s : chain) : chain :=
+  chain_core s (c_bank s) (c_now s) (c_height s) (c_grants s) (c_minter s) (c_supply s) true.
 
 Definition total_pending (s : chain) : nat :=
   fold_left (fun n x => (n + length (ms_pending (snd x)))%nat) (c_ms s) O.
 
-(* EndBlock: bet end-blocker, then order-book end-blocker (app/modules.go orderEndBlockers) *)
+(* ---- ovm ------------------------------------------------------------------------------------------------------ *)
+(* utils/str.go RemoveDuplicateStrs: first occurrences, in order *)
+Fixpoint dedup_keep_first (l seen : list Z) : list Z :=
+  match l with
+  | [] => []
+  | x :: r => if zmem x seen then dedup_keep_first r seen else x :: dedup_keep_first r (x :: seen)
+  end.
+(* key_vault.go MajorityCount: ceil(n * 0.6667) *)
+Definition majority_count (n : Z) : Z := (n * 6667 + 9999) / 10000.
+(* key_vault.go SetLeader: pop at index, prepend *)
+Definition set_leader (keys : list Z) (i : Z) : list Z :=
+  let n := Z.to_nat i in
+  nth n keys (-1) :: (firstn n keys ++ skipn (S n) keys).
+
+(* msg_server_pubkeys_proposal.go SubmitPubkeysChangeProposal; keys: key ids, -1 = not a valid ed25519 PEM *)
+Definition ovm_propose (s : chain) (signer : Z) (tk : ticket) (keys : list Z) (leader_idx : Z) : option chain :=
+  if negb ((0 <=? tk_signer tk) && zmem (tk_signer tk) (c_vault s) && (c_now s <? tk_exp tk)) then None else
+  let ks := dedup_keep_first keys [] in
+  let n := zlen ks in
+  if (n <? 4) || (5 <? n) then None
+  else if negb (forallb (fun k => 0 <=? k) ks) then None
+  else if (leader_idx <? 0) || (n <=? leader_idx) then None
+  else
+    let id := c_propcnt s + 1 in
+    let p := {| pp_id := id; pp_creator := signer; pp_keys := ks; pp_leader := leader_idx; pp_start := c_now s;
+                pp_votes := []; pp_status := PS_ACTIVE; pp_result := 0; pp_finish := 0 |} in
+    Some (chain_set_ovm s (c_vault s) (c_props s ++ [p]) id).
+
+(* msg_server_vote.go VotePubkeysChange *)
+Definition ovm_vote (s : chain) (tk : ticket) (voter_idx prop_id vote : Z) : option chain :=
+  if (voter_idx <? 0) || (zlen (c_vault s) <=? voter_idx) then None else
+  let key := nth (Z.to_nat voter_idx) (c_vault s) (-1) in
+  if negb ((0 <=? tk_signer tk) && (tk_signer tk =? key) && (c_now s <? tk_exp tk)) then None
+  else if negb ((vote =? VOTE_YES) || (vote =? VOTE_NO)) then None
+  else match findb (fun p => (pp_id p =? prop_id) && (pp_status p =? PS_ACTIVE)) (c_props s) with
+  | None => None
+  | Some p =>
+      if existsb (fun v => fst v =? key) (pp_votes p) then None else
+      let p' := {| pp_id := pp_id p; pp_creator := pp_creator p; pp_keys := pp_keys p; pp_leader := pp_leader p;
+                   pp_start := pp_start p; pp_votes := pp_votes p ++ [(key, vote)]; pp_status := pp_status p;
+                   pp_result := pp_result p; pp_finish := pp_finish p |} in
+      Some (chain_set_ovm s (c_vault s) (upd (fun q => pp_id q =? prop_id) p' (c_props s)) (c_propcnt s))
+  end.
+
+Definition count_votes (v : Z) (votes : list (Z * Z)) : Z := zlen (filter (fun x => snd x =? v) votes).
+
+(* proposal.go DecideResult against the key vault read BEFORE the loop (finishPubkeysChangeProposals) *)
+Definition decide (p : proposal) (nkeys : Z) : Z :=
+  let maj := majority_count nkeys in
+  if maj <=? count_votes VOTE_NO (pp_votes p) then PR_REJECTED
+  else if maj <=? count_votes VOTE_YES (pp_votes p) then PR_APPROVED else 0.
+
+Definition finish_prop (p : proposal) (result now : Z) : proposal :=
+  {| pp_id := pp_id p; pp_creator := pp_creator p; pp_keys := pp_keys p; pp_leader := pp_leader p;
+     pp_start := pp_start p; pp_votes := pp_votes p; pp_status := PS_FINISHED; pp_result := result; pp_finish := now |}.
+
+(* keeper/proposal.go finishPubkeysChangeProposals: active proposals in id order *)
+Fixpoint ovm_finish (ps : list proposal) (now nkeys0 : Z) (vault : list Z) : list proposal * list Z :=
+  match ps with
+  | [] => ([], vault)
+  | p :: r =>
+      if negb (pp_status p =? PS_ACTIVE) then let '(r', v') := ovm_finish r now nkeys0 vault in (p :: r', v')
+      else if 1800 <? now - pp_start p then
+        let '(r', v') := ovm_finish r now nkeys0 vault in (finish_prop p PR_EXPIRED now :: r', v')
+      else
+        let d := decide p nkeys0 in
+        if d =? PR_REJECTED then let '(r', v') := ovm_finish r now nkeys0 vault in (finish_prop p PR_REJECTED now :: r', v')
+        else if d =? PR_APPROVED then
+          let '(r', v') := ovm_finish r now nkeys0 (set_leader (pp_keys p) (pp_leader p)) in
+          (finish_prop p PR_APPROVED now :: r', v')
+        else let '(r', v') := ovm_finish r now nkeys0 vault in (p :: r', v')
+  end.
+
+Definition ovm_endblock (s : chain) : chain :=
+  let '(ps, v) := ovm_finish (c_props s) (c_now s) (zlen (c_vault s)) (c_vault s) in
+  chain_set_ovm s v ps (c_propcnt s).
+
+(* EndBlock: bet end-blocker, then order-book end-blocker, then ovm (app/modules.go orderEndBlockers) *)
 Definition end_block (s : chain) : chain * out :=
   match bet_endblock (S (length (c_mqueue s) + total_pending s)) s (pr_bet_batch (c_prm s)) with
   | None => (halt s, Panic)
   | Some s1 =>
       match ob_endblock (S (length (c_bqueue s1))) s1 (pr_ob_batch (c_prm s1)) O with
       | None => (halt s, Panic)
-      | Some s2 => (s2, Ok)
+      | Some s2 => (ovm_endblock s2, Ok)
       end
   end.
 
-(* BeginBlock: new header, mint (x/mint/abci.go), authz pruning of grants with expiration < block time (InclusiveEndBytes of the time prefix
-   does not reach keys that extend it, so a grant expiring exactly now survives and is still valid) *)
+(* BeginBlock: new header, mint (x/mint/abci.go), authz pruning of grants with expiration < block time
+   (InclusiveEndBytes of the time prefix does not reach keys that extend it, so a grant expiring
+   exactly now survives and is still valid) *)
 Definition begin_block_op (s : chain) (t : Z) : chain * out :=
   let h := c_height s + 1 in
   match begin_block (c_mparams s) (c_minter s) (c_supply s) h with
   | BBpanic => (halt s, Panic)
   | BBok m minted =>
-      ({| c_bank := badd (c_bank s) FEECOLL minted; c_now := t; c_height := h; c_prm := c_prm s;
-          c_vault := c_vault s; c_ms := c_ms s; c_mqueue := c_mqueue s; c_bqueue := c_bqueue s;
-          c_betcnt := c_betcnt s; c_uid2id := c_uid2id s; c_settledix := c_settledix s;
-          c_grants := filter (fun g => (g_exp g <? 0) || (t <=? g_exp g)) (c_grants s);
-          c_mparams := c_mparams s; c_minter := m; c_supply := c_supply s + minted; c_halted := false |}, Ok)
+      (chain_core s (badd (c_bank s) FEECOLL minted) t h
+                  (filter (fun g => (g_exp g <? 0) || (t <=? g_exp g)) (c_grants s)) m (c_supply s + minted) false, Ok)
   end.
 
 (* authz MsgGrant for the two house authorizations (limits from x/house/types/consts.go) *)
@@ -481,11 +687,149 @@ Definition do_revoke (s : chain) (granter grantee kind : Z) : option chain :=
                               (c_settledix s) (remb (grant_is grantee granter kind) (c_grants s)))
   end.
 
+Definition set_bank (s : chain) (b : bank) : chain :=
+  chain_upd s b (c_ms s) (c_mqueue s) (c_bqueue s) (c_betcnt s) (c_uid2id s) (c_settledix s) (c_grants s).
+
 Definition do_send (s : chain) (from to amt : Z) : option chain :=
   if amt <=? 0 then None else
   match pay (c_bank s) from to amt with
   | None => None
-  | Some b => Some (chain_upd s b (c_ms s) (c_mqueue s) (c_bqueue s) (c_betcnt s) (c_uid2id s) (c_settledix s) (c_grants s))
+  | Some b => Some (set_bank s b)
+  end.
+
+(* ---- subaccount -------------------------------------------------------------------------------------------------- *)
+Definition lock_ok (now : Z) (l : Z * Z) : bool := negb (fst l =? 0) && negb (snd l <? 0).   (* LockedBalance.Validate *)
+(* keeper/subaccount.go sumLockedBalance: None when an unlock time lies before the block time *)
+Definition sum_locks (now : Z) (ls : list (Z * Z)) : option Z :=
+  if existsb (fun l => fst l <? now) ls then None else Some (zsum (map snd ls)).
+(* SetLockedBalances: one store entry per unlock time, the last write wins *)
+Definition set_locks (old new : list (Z * Z)) : list (Z * Z) :=
+  fold_left (fun acc l => upd (fun x => fst x =? fst l) l acc) new old.
+
+(* msg_server_subaccount.go Create / keeper CreateSubaccount *)
+Definition sub_create (s : chain) (creator owner : Z) (locks : list (Z * Z)) : option chain :=
+  if negb (forallb (lock_ok (c_now s)) locks) then None else
+  match sum_locks (c_now s) locks with
+  | None => None
+  | Some tot =>
+      match sub_by_owner (c_subs s) owner with
+      | Some _ => None
+      | None =>
+          let id := c_subnext s in
+          match pay (c_bank s) creator (SUBBASE + id) tot with
+          | None => None
+          | Some b =>
+              let x := {| sa_id := id; sa_owner := owner; sa_dep := tot; sa_spent := 0; sa_wd := 0; sa_lost := 0;
+                          sa_locks := set_locks [] locks |} in
+              Some (set_bank (chain_set_subs s (c_subs s ++ [x]) (id + 1)) b)
+          end
+      end
+  end.
+
+(* keeper/balance.go TopUp *)
+Definition sub_topup (s : chain) (creator owner : Z) (locks : list (Z * Z)) : option chain :=
+  if negb (forallb (lock_ok (c_now s)) locks) then None else
+  match sum_locks (c_now s) locks with
+  | None => None
+  | Some tot =>
+      match sub_by_owner (c_subs s) owner with
+      | None => None
+      | Some x =>
+          if existsb (fun l => existsb (fun o => fst o =? fst l) (sa_locks x)) locks then None else
+          match pay (c_bank s) creator (sub_addr x) tot with
+          | None => None
+          | Some b =>
+              let x' := sub_with x (sa_dep x + tot) (sa_spent x) (sa_wd x) (sa_lost x) (set_locks (sa_locks x) locks) in
+              Some (set_bank (with_subs s (set_sub (c_subs s) x')) b)
+          end
+      end
+  end.
+
+(* keeper/balance.go withdrawUnlocked: min(available, unlocked so far, bank balance) *)
+Definition unlocked_total (now : Z) (x : subacc) : Z := zsum (map snd (filter (fun l => fst l <? now) (sa_locks x))).
+Definition sub_withdraw_unlocked (s : chain) (owner : Z) : option chain :=
+  match sub_by_owner (c_subs s) owner with
+  | None => None
+  | Some x =>
+      let w := Z.min (Z.min (sub_available x) (unlocked_total (c_now s) x)) (bget (c_bank s) (sub_addr x)) in
+      if w =? 0 then None else
+      match sub_withdraw x w with
+      | None => None
+      | Some x' =>
+          match pay (c_bank s) (sub_addr x) owner w with
+          | None => None
+          | Some b => Some (set_bank (with_subs s (set_sub (c_subs s) x')) b)
+          end
+      end
+  end.
+
+(* msg_server_bet.go Wager: outer ticket, inner MsgWager (own ticket), main/subacc deduction *)
+Definition sub_wager (s : chain) (signer : Z) (tk : ticket) (inner_creator : Z) (tk2 : ticket)
+           (betuid amount selmkt selodds oddsval mult : Z) (allodds : list (Z * Z)) (ky : kyc) (oddstype : Z)
+           (main_ded sub_ded : Z) : option chain :=
+  if negb (c_sub_wager s) then None else
+  match sub_by_owner (c_subs s) signer with
+  | None => None
+  | Some x =>
+      if negb (ticket_ok s tk) then None
+      else if negb (signer =? inner_creator) then None
+      else if negb (wager_prepare s inner_creator tk2 betuid amount selmkt selodds mult allodds ky oddstype) then None
+      else if negb (main_ded + sub_ded =? amount) then None
+      else if bget (c_bank s) signer <? main_ded then None
+      else
+        (* withdrawLockedAndUnlocked *)
+        let withdrawable := Z.min (sub_available x) (bget (c_bank s) (sub_addr x)) in
+        if Z.min withdrawable sub_ded <? sub_ded then None else
+        match pay (c_bank s) (sub_addr x) signer sub_ded with
+        | None => None
+        | Some b =>
+            match sub_withdraw x sub_ded with
+            | None => None
+            | Some x' =>
+                wager_core (set_bank (with_subs s (set_sub (c_subs s) x')) b) signer betuid amount selmkt selodds oddsval mult allodds
+            end
+        end
+  end.
+
+(* msg_server_house.go HouseDeposit *)
+Definition sub_house_deposit (s : chain) (signer : Z) (tk : ticket) (mkt amount : Z) (ky : kyc) (dep : Z) : option chain :=
+  if negb (c_sub_deposit s) then None else
+  if (mkt <? 0) || (amount <=? 0) then None else
+  match sub_by_owner (c_subs s) signer with
+  | None => None
+  | Some x =>
+      match deposit_validate s signer tk mkt amount ky dep false with
+      | None => None
+      | Some (_, grants) =>
+          match sub_spend x amount with
+          | None => None
+          | Some x' =>
+              match house_deposit_core s signer (sub_addr x) mkt amount grants with
+              | None => None
+              | Some s1 => Some (with_subs s1 (set_sub (c_subs s1) x'))
+              end
+          end
+      end
+  end.
+
+(* msg_server_house.go HouseWithdraw *)
+Definition sub_house_withdraw (s : chain) (signer : Z) (tk : ticket) (mkt pidx mode amount : Z) (ky : kyc) (dep : Z)
+  : option chain :=
+  match sub_by_owner (c_subs s) signer with
+  | None => None
+  | Some x =>
+      match withdraw_validate s signer tk mkt pidx mode amount ky dep with
+      | None => None
+      | Some _ =>
+          match withdraw_core s signer (sub_addr x) mkt pidx mode amount false with
+          | None => None
+          | Some (s1, amt) =>
+              match sub_unspend x amt with
+              | None => None
+              | Some x' => Some (with_subs s1 (set_sub (c_subs s1) x'))
+              end
+          end
+      end
   end.
 
 (* transactions are atomic (baseapp runMsgs on a cache-wrapped store + panic recovery) *)
@@ -507,13 +851,23 @@ Definition step (s : chain) (o : op) : chain * out :=
   | OGrant granter grantee kind limit exp => tx s (do_grant s granter grantee kind limit exp)
   | ORevoke granter grantee kind => tx s (do_revoke s granter grantee kind)
   | OSend from to amt => tx s (do_send s from to amt)
+  | OPropose signer tk keys li => tx s (ovm_propose s signer tk keys li)
+  | OVote _ tk vi pid v => tx s (ovm_vote s tk vi pid v)
+  | OSubCreate creator owner locks => tx s (sub_create s creator owner locks)
+  | OSubTopUp creator owner locks => tx s (sub_topup s creator owner locks)
+  | OSubWithdraw owner => tx s (sub_withdraw_unlocked s owner)
+  | OSubWager signer tk ic tk2 betuid amount selmkt selodds oddsval mult allodds ky ot md sd =>
+      tx s (sub_wager s signer tk ic tk2 betuid amount selmkt selodds oddsval mult allodds ky ot md sd)
+  | OSubHouseDeposit signer tk mkt amount ky dep => tx s (sub_house_deposit s signer tk mkt amount ky dep)
+  | OSubHouseWithdraw signer tk mkt pidx mode amount ky dep => tx s (sub_house_withdraw s signer tk mkt pidx mode amount ky dep)
   end.
 
 Definition run (s : chain) (ops : list op) : chain := fold_left (fun st o => fst (step st o)) ops s.
 
 (* genesis: empty custom stores, the given balances, params, vault and mint configuration *)
-Definition init (bk : bank) (supply : Z) (P : params) (vault : list Z) (MP : mparams) (t0 : Z) : chain :=
+Definition init (bk : bank) (supply : Z) (P : params) (vault : list Z) (MP : mparams) (t0 : Z) (sw sd : bool) : chain :=
   {| c_bank := bk; c_now := t0; c_height := 0; c_prm := P; c_vault := vault; c_ms := []; c_mqueue := [];
      c_bqueue := []; c_betcnt := 0; c_uid2id := []; c_settledix := []; c_grants := [];
      c_mparams := MP; c_minter := {| m_infl := 0; m_step := 0; m_prov := 0; m_trunc := 0 |};
-     c_supply := supply; c_halted := false |}.
+     c_supply := supply; c_props := []; c_propcnt := 0; c_subs := []; c_subnext := 1;
+     c_sub_wager := sw; c_sub_deposit := sd; c_halted := false |}.
